@@ -17,9 +17,11 @@ MC_CONFIGS = {
                  MaxSeqn=3, Faults=True, AllowUngrounded=False),
     "core2": dict(Keys={"k1"}, Vals={"v1", "v2"}, MaxLog=2, RollbackOn=True, MaxOvl=0, MaxFin=2, MaxSess=1,
                   MaxSeqn=4, Faults=True, AllowUngrounded=False),
-    "ovl": dict(Keys={"k1"}, Vals={"v1"}, MaxLog=2, RollbackOn=True, MaxOvl=3, MaxFin=1, MaxSess=1,
+    "ovl": dict(Keys={"k1"}, Vals={"v1"}, MaxLog=2, RollbackOn=True, MaxOvl=2, MaxFin=1, MaxSess=1,
                 MaxSeqn=3, Faults=False, AllowUngrounded=False),
-    "norb": dict(Keys={"k1", "k2"}, Vals={"v1"}, MaxLog=1, RollbackOn=False, MaxOvl=1, MaxFin=2, MaxSess=1,
+    "ovl3": dict(Keys={"k1"}, Vals={"v1"}, MaxLog=1, RollbackOn=True, MaxOvl=3, MaxFin=1, MaxSess=1,
+                 MaxSeqn=2, Faults=False, AllowUngrounded=False),
+    "norb": dict(Keys={"k1"}, Vals={"v1"}, MaxLog=1, RollbackOn=False, MaxOvl=1, MaxFin=2, MaxSess=1,
                  MaxSeqn=3, Faults=True, AllowUngrounded=False),
 }
 
@@ -160,14 +162,19 @@ def twin_without_reopen(beh):
     out = []
     changed = False
     held = 0
+    ovl_ids_used = False   # overlay identifiers are only recycled by Close: keep the pair then
     i = 0
     while i < len(beh):
         s = beh[i]
         a = s["a"]
-        if a == "Close" and i + 1 < len(beh) and beh[i + 1]["a"] == "Reopen" and held == 0:
+        if a == "Close" and i + 1 < len(beh) and beh[i + 1]["a"] == "Reopen" and held == 0 and not ovl_ids_used:
             changed = True
             i += 2
             continue
+        if a == "IntoOverlay":
+            ovl_ids_used = True
+        if a == "Close":
+            ovl_ids_used = False
         if a == "Begin" and s.get("res") == "Ok":
             held += 1
         elif a in ("DropSession", "DropFinished", "DropOverlay"):
